@@ -293,6 +293,11 @@ impl DrawExecutor {
 
     fn draw_line(&mut self, x0: i32, y0: i32, x1: i32, y1: i32, color: u8, mask: usize) {
         let mut line_mask = LINE_STYLE[mask];
+        // lines are drawn step by step: keep the end points inside a guard band around the canvas,
+        // so that the cost of a line does not follow absurd coordinates
+        const GUARD: i32 = 16_384;
+        let (x0, y0) = (x0.clamp(-GUARD, GUARD), y0.clamp(-GUARD, GUARD));
+        let (x1, y1) = (x1.clamp(-GUARD, GUARD), y1.clamp(-GUARD, GUARD));
 
         let dx = (x0 - x1).abs();
         let dy = (y0 - y1).abs();
